@@ -59,6 +59,13 @@ impl Panicked {
     }
 }
 
+static PRINT: std::sync::atomic::AtomicBool = std::sync::atomic::AtomicBool::new(false);
+
+/// print a compact line for every panic (used by engines where a panic aborts the process)
+pub fn set_print(b: bool) {
+    PRINT.store(b, std::sync::atomic::Ordering::Relaxed);
+}
+
 thread_local! {
     static LAST: RefCell<Option<Panicked>> = const { RefCell::new(None) };
 }
@@ -76,7 +83,13 @@ pub fn install_hook() {
         } else {
             "?".to_string()
         };
-        LAST.with(|l| *l.borrow_mut() = Some(Panicked { file, line, msg }));
+        let p = Panicked { file, line, msg };
+        if PRINT.load(std::sync::atomic::Ordering::Relaxed) {
+            // one compact line so that a process that aborts (panic inside `extern "C"`) still tells where
+            eprintln!("NQV-PANIC-CLASS {}|{}", p.site(), p.msg_class());
+            eprintln!("NQV-PANIC {}:{} {}", p.file, p.line, p.msg.replace('\n', " "));
+        }
+        LAST.with(|l| *l.borrow_mut() = Some(p));
     }));
 }
 
